@@ -117,7 +117,7 @@ def run_inproc(cfg, workdir):
     out = res["out"]
     return {"exc": None if res["exc"] is None else (type(res["exc"]).__name__, str(res["exc"])), "recs": res["recs"],
             "flat": None if out is None else flatten(out, cfg), "call_log": res["call_log"], "kw": res["kw"],
-            "flush_log": res["flush_log"], "interrupt_t": res["interrupt_t"],
+            "flush_log": res["flush_log"], "interrupt_t": res["interrupt_t"], "init_pos": res["init_pos"],
             "finals": None if out is None else [(int(getattr(s, "tag", -1)), np.array(s.pos), None if s.mom is None else np.array(s.mom)) for s in out.final_states],
             "types": dict(res["sampler_transitions"]["integration_transition"].statistic_types)}
 
@@ -225,7 +225,8 @@ def judge(obs, cfg, mode, point, ref, got, stages, types, udir):  # noqa: C901, 
         if mode == "par-signal":
             # every worker is hit at an arbitrary point, possibly inside the logging proxy itself: accept any logged position
             mine = [x["pos"] for x in got["recs"] if x["kind"] == "end" and x["tag"] == ftag]
-            if mine and not any(np.array_equal(pos, q) for q in mine[-2:]):
+            allowed = mine[-2:] + ([ref["init_pos"][ftag]] if ftag in ref.get("init_pos", {}) else [])
+            if allowed and not any(np.array_equal(pos, q) for q in allowed):
                 obs.violation(f"final-state-position:{mode}", f"final state of chain {ftag} is not at one of its last two logged positions; {where}")
             continue
         if ftag in last_pos and not np.array_equal(pos, last_pos[ftag]):
@@ -278,7 +279,6 @@ def run_case(case, obs) -> None:  # noqa: C901
                 return
             obs.violation("reference-run-failed", f"uninterrupted run raised {ref['exc']}; cfg={cfg}")
             return
-        ref["init_pos"] = {}
         stages = list(samp.stage_plan(cfg, ref["kw"]).items())
         points = sorted(set(ref["call_log"]))
         obs.count("interrupt_points_available", len(points))
